@@ -91,6 +91,12 @@ int muggle_str_count(const char *str, const char *sub, int start, int end)
 	size_t str_len = strlen(str);
 	size_t sub_len = strlen(sub);
 
+	if (sub_len == 0)
+	{
+		// occurrences of the empty string are not counted
+		return 0;
+	}
+
 	if (start < 0 || end < 0)
 	{
 		return 0;
@@ -216,6 +222,11 @@ int muggle_str_rstrip_idx(const char *str)
 	}
 
 	int str_len = (int)strlen(str);
+	if (str_len == 0)
+	{
+		return -1;
+	}
+
 	int idx = str_len - 1;
 	while (isspace(str[idx]))
 	{
